@@ -39,6 +39,10 @@ type c22Op struct {
 	Key  int `json:"key"`  // index into c22Pool
 	Body int `json:"body"` // 0 well-formed; 1 truncated; 2 garbage; 3 msgpack of the wrong shape; 4 empty payload
 	Cut  int `json:"cut"`  // truncation point / garbage selector
+	// Via: 0 = the request arrives as gossip from a peer; 1 = the operator asks
+	// this very node (KeyManager API): the node handles its own query and its
+	// reply comes back over the loopback (well-formed bodies only).
+	Via int `json:"via,omitempty"`
 }
 
 type c22Case struct {
@@ -46,16 +50,29 @@ type c22Case struct {
 	Ops  []c22Op `json:"ops"`
 }
 
-const c22Valid = 6
+const c22Valid = 10
 
-// c22Pool: six valid keys (2x16, 2x24, 2x32 bytes) followed by invalid ones.
+// c22Pool: ten valid keys followed by invalid ones. The valid keys are chosen
+// so that "equal" has to mean byte-for-byte equal over the whole key: keys
+// that extend one another (16/24/32 bytes of 0x11), a key that differs from
+// another in its last byte only, the all-zero key, and keys whose base64 text
+// uses '+', '/' and padding (the file stores base64 text). Among the invalid
+// ones are proper prefixes / extensions of an installed valid key.
 var c22Pool = func() [][]byte {
-	var p [][]byte
-	for i, n := range []int{16, 16, 24, 24, 32, 32} {
-		p = append(p, bytes.Repeat([]byte{byte(0x11 * (i + 1))}, n))
+	rep := func(b byte, n int) []byte { return bytes.Repeat([]byte{b}, n) }
+	last := rep(0x11, 16)
+	last[15] = 0x12
+	plus := bytes.Repeat([]byte{0xfb, 0xef, 0xbe}, 11)[:32] // base64 "++++…"
+	p := [][]byte{
+		rep(0x11, 16), rep(0x22, 16), rep(0x33, 24), rep(0x11, 24), rep(0x55, 32),
+		rep(0x11, 32), rep(0x00, 16), plus, last, rep(0xff, 24),
 	}
 	for _, n := range []int{0, 1, 8, 15, 17, 31, 33, 64} {
-		p = append(p, bytes.Repeat([]byte{0xEE}, n))
+		p = append(p, rep(0xEE, n))
+	}
+	// invalid lengths that share all their bytes with valid keys of the pool
+	for _, n := range []int{15, 17, 23, 25, 31, 33} {
+		p = append(p, rep(0x11, n))
 	}
 	return p
 }()
@@ -99,6 +116,9 @@ func genC22(t *rapid.T) c22Case {
 			op.Cut = rapid.IntRange(0, 40).Draw(t, "cut")
 		} else {
 			gm.apply(op.Op, c22Pool[op.Key])
+			if rapid.IntRange(0, 3).Draw(t, "via") == 0 {
+				op.Via = 1
+			}
 		}
 		c.Ops = append(c.Ops, op)
 	}
